@@ -385,4 +385,61 @@ theorem splitLF_ne_nil (b : Bytes) : splitLF b ≠ [] := by
     · simp
     · split <;> simp
 
+/-! ## the option loop -/
+
+/-- what one option does to the record when nothing goes wrong -/
+def updOp (o : Op) : OpOpt → Op
+  | .fwc l => { o with fwc := l }
+  | .stop => { o with stop := true }
+  | _ => o
+
+/-- under the good loop shape and without erroring options, the loop is a fold: every option is
+visited, ignored ones leave the record alone -/
+theorem run_good_eq_foldl (opts : List OpOpt) (o : Op) (h : OpOpt.bad ∉ opts) :
+    OptLoop.run OptLoop.good applyOpOpt opts o = some (opts.foldl updOp o) := by
+  induction opts generalizing o with
+  | nil => rfl
+  | cons x xs ih =>
+    have hx : x ≠ .bad := fun e => h (by simp [e])
+    have hxs : OpOpt.bad ∉ xs := fun hm => h (List.mem_cons_of_mem _ hm)
+    cases x with
+    | fwc l => simpa [OptLoop.run, applyOpOpt, OptLoop.good, updOp] using ih _ hxs
+    | stop => simpa [OptLoop.run, applyOpOpt, OptLoop.good, updOp] using ih _ hxs
+    | foreign => simpa [OptLoop.run, applyOpOpt, OptLoop.good, updOp] using ih _ hxs
+    | bad => exact absurd rfl hx
+
+theorem foldl_updOp (opts : List OpOpt) (o : Op) :
+    (opts.foldl updOp o).fwc = (lastFwc opts).getD o.fwc ∧
+    (opts.foldl updOp o).stop = (o.stop || hasStop opts) := by
+  induction opts generalizing o with
+  | nil => simp [lastFwc, hasStop]
+  | cons x xs ih =>
+    have := ih (updOp o x)
+    cases x with
+    | fwc l =>
+      simp only [List.foldl_cons, lastFwc, hasStop, updOp] at this ⊢
+      refine ⟨?_, this.2⟩
+      rw [this.1]
+      cases lastFwc xs <;> rfl
+    | stop =>
+      simp only [List.foldl_cons, lastFwc, hasStop, updOp] at this ⊢
+      refine ⟨this.1, ?_⟩
+      rw [this.2]; simp
+    | foreign => simpa [lastFwc, hasStop, updOp] using this
+    | bad => simpa [lastFwc, hasStop, updOp] using this
+
+theorem lastFwc_filter_foreign (opts : List OpOpt) :
+    lastFwc (opts.filter (· != .foreign)) = lastFwc opts := by
+  induction opts with
+  | nil => rfl
+  | cons x xs ih =>
+    cases x <;> simp [lastFwc, ih]
+
+theorem hasStop_filter_foreign (opts : List OpOpt) :
+    hasStop (opts.filter (· != .foreign)) = hasStop opts := by
+  induction opts with
+  | nil => rfl
+  | cons x xs ih =>
+    cases x <;> simp [hasStop, ih]
+
 end Scrapli.Failed
